@@ -428,3 +428,21 @@ def serialise_template(t, depth=0):
         fields = sorted(vars(t).items())
         return f"{type(t).__name__}(" + ",".join(f"{k}={serialise_template(v, depth + 1)}" for k, v in fields) + ")"
     return repr(t)
+
+
+def call_rule(fn, text, preserve=frozenset()):
+    """Call a rule function alone, supplying the extra arguments its signature requires."""
+    real = getattr(fn, "__verif_wrapped__", fn)
+    inner = getattr(real, "_fix_func", real)
+    try:
+        params = inspect.signature(inner).parameters
+    except (TypeError, ValueError):
+        return fn(text)
+    kwargs = {}
+    if "preserve" in params:
+        kwargs["preserve"] = preserve
+    if "root_is_static" in params:
+        kwargs["root_is_static"] = True
+    if "max_line_length" in params and params["max_line_length"].default is inspect.Parameter.empty:
+        kwargs["max_line_length"] = 100
+    return fn(text, **kwargs)
